@@ -14,7 +14,7 @@ frs=[]
 for k in [a for a in sys.argv[2:] if a != "-v"]:
     fr=e.verify_function(k); frs.append(fr)
     print(k,'paths',len(fr.paths),'unsupported:',fr.unsupported)
-    if fr.unsupported_trace and '-v' in sys.argv: print(fr.unsupported_trace[-1200:])
+    if fr.unsupported_trace and '-v' in sys.argv: print(fr.unsupported_trace[-6000:])
 res=discharge(frs)
 bad=0
 for r in res:
